@@ -485,12 +485,13 @@ def C11():
     from contracts.textconv import UNITS, TABLES, BOUNDED
     from contracts.textattrs import EncodeText
     from contracts.headers import SublineHeader
+    from contracts.spanning import EncodeSpanningRow
     from contracts.row import ConvertSpecialChars
     from contracts.attributes import EncodeRows
     from contracts import replayers as R
     return Property(
         "C11", units=[ContractUnit(u) for u in UNITS] + [ContractUnit(ConvertSpecialChars()), ContractUnit(EncodeRows()), ContractUnit(EncodeText()),
-                      ContractUnit(SublineHeader())] + _component_init_units() + TABLES + BOUNDED, level="other",
+                      ContractUnit(SublineHeader()), ContractUnit(EncodeSpanningRow())] + _component_init_units() + TABLES + BOUNDED, level="other",
         technique="gating and dispatch contracts on the real convert_text_content / _convert_single_text / convert_latex_to_unicode (the whole text is scanned "
                   "once by the converter's own pattern, a match is replaced by the lookup of the whole token) / _convert_single_command / _convert_special_chars (convert off = "
                   "verbatim + escaping; per-cell binding of text_convert); the real tables (ordered literal mapping, 682 symbols, token pattern, "
@@ -498,7 +499,8 @@ def C11():
         trusted_base=[SOLVERS, ENGINE, "str.replace / re.sub implement left-to-right non-overlapping replacement (assumed, L5); the LaTeX pass as a whole is an uninterpreted function in the proofs"],
         assumptions=["token language: the real pattern string is compared with the documented one (string equality, not language equivalence)",
                      "title / footnote / source lines bind text_convert at their own row (unit EncodeText); the subline_by heading is never LaTeX-converted "
-                     "(unit SublineHeader); the encode_spanning_row default (text_convert False when the body leaves it unset) is not under contract",
+                     "(unit SublineHeader); a page_by group heading converts exactly when the body's text_convert at its column says so (unit EncodeSpanningRow); "
+                     "what encode_spanning_row does when the attribute is unset (no RTFBody leaves it unset) is not constrained",
                      "re: pattern.sub(f, s) and Match.group(0) are assumed contracts (unit ConvertLatexToUnicode binds the pattern object, the scanned text and "
                      "the replacement function); a failing converter leaves the text unconverted (code-derived clause of _convert_single_text)"],
         replayers={"text_conversion/": R.replay_text_conversion, "services/text_conversion_service.py::": R.replay_text_conversion,
